@@ -434,6 +434,13 @@ class CpuidCheck:
                 path = vlib.write_replay("C15", 0, {"property": "C15", "op": "dispatch:forwarding", "type": "program", "arch": "host", "note": errs[0][-600:], "program": "harness/h_cpuid.cpp", "replay_kind": "cpuid"})
                 print("VIOLATION property=C15 replay=%s  # dispatch(f)(args...) does not forward its arguments: %s" % (path, errs[0][-300:]))
                 sys.exit(1)
+            # the static_asserts of the harness on dispatch's result type ("dispatch of a functor returning int& returns int&"):
+            # the result of f is not returned as it is
+            sa = [l for l in errs if "static assertion failed: dispatch of" in l]
+            if sa and errs[0] is sa[0]:
+                path = vlib.write_replay("C15", 0, {"property": "C15", "op": "dispatch:result", "type": "program", "arch": "host", "note": sa[0][-600:], "program": "harness/h_cpuid.cpp", "replay_kind": "cpuid"})
+                print("VIOLATION property=C15 replay=%s  # dispatch(f)(args...) does not return f's result: %s" % (path, sa[0][-300:]))
+                sys.exit(1)
             print("[vcheck] C15: the CPUID harness does not compile against the current tree")
             sys.exit(2)
         return target
